@@ -72,7 +72,11 @@ class RG:
             return {"k": "ref", "n": n, "e": e, "style": "&" if form == "ref&" else ":="}
         if c < 0.85:
             n = self.fresh("v")
-            e = {"k": "vec", "a": [self.src("int", env, 1) for _ in range(r.randint(2, 3))]}
+            if r.random() < 0.3:
+                lo = r.randint(0, 3)           # an inline range with literal bounds: rebuilt from its bounds on every evaluation
+                e = {"k": "range", "lo": {"k": "int", "v": lo, "id": self.nid()}, "hi": {"k": "int", "v": lo + r.randint(1, 3), "id": self.nid()}}
+            else:
+                e = {"k": "vec", "a": [self.src("int", env, 1) for _ in range(r.randint(2, 3))]}
             env.append((n, "vec"))
             form = r.choice(["var", "var", "var", "ref&", "ref:="])
             if form == "var":
@@ -151,7 +155,9 @@ class RG:
             return [{"k": "out", "e": {"k": "call", "f": "bumps", "a": [self.src("str", [], 1)]}}]
         if o == "rforlit":
             e = self.fresh("e")
-            return [{"k": "rfor", "n": e, "e": {"k": "vec", "a": [self.lit("int"), self.lit("int")]},
+            src = {"k": "vec", "a": [self.lit("int"), self.lit("int")]} if r.random() < 0.6 else \
+                {"k": "range", "lo": {"k": "int", "v": 1, "id": self.nid()}, "hi": {"k": "int", "v": 3, "id": self.nid()}}
+            return [{"k": "rfor", "n": e, "e": src,
                      "b": [dict(zip(("op", "bop"), r.choice([("+=", "+"), ("*=", "*")])), k="casg", l=iid(e), e=self.lit("int")), {"k": "out", "e": iid(e)}]}]
         # a counted loop (compiled by the optimizer) declaring and mutating a local from a literal on every pass
         i, y = self.fresh("i"), self.fresh("y")
